@@ -171,7 +171,8 @@ def _allvars(v: Variant):
 
 POS = {"lanes", "L", "T", "tau", "eta", "kappa", "v_free", "rho_crit", "a", "rho_max", "C", "beta", "betas"}
 NONNEG = {"rho", "v", "v_up", "rho_down", "Veq", "q", "q_up", "q_lasts", "v_lasts", "rho_firsts", "w", "d", "q_ramp", "delta",
-          "phi", "v_ctrl", "v_first", "rho_first", "rho_last", "rho_destination", "qdes", "r", "q_orig", "lanes_drop", "x", "y", "z"}
+          "phi", "v_ctrl", "v_first", "rho_first", "rho_last", "rho_destination", "qdes", "r", "q_orig", "x", "y", "z"}
+# lanes_drop (lanes of this link minus lanes of the next) may have either sign: a lane GAIN is admissible
 
 
 def default_domain(v: Variant):
